@@ -25,7 +25,11 @@ def fock_basis(N: int, n: int) -> list:  # noqa: N803
 
 
 def _sums(length: int, total_sum: int) -> Iterable:
-    if length == 1:
+    if length == 0:
+        # Only the empty state exists for zero modes
+        if total_sum == 0:
+            yield []
+    elif length == 1:
         yield [
             total_sum,
         ]
